@@ -3,18 +3,27 @@ SPEC = dict(
     prop="C23",
     proof_module="SimbodyProofs.C23",
     sources=["SimbodyModel/Proto.lean", "SimbodyModel/C23.lean", "SimbodyProofs/C23.lean", "Drivers/C23.lean"],
-    n=dict(quick=120, thorough=3000),
+    n=dict(quick=100, thorough=2500),
     rtol=1e-9, atol=1e-12,
     rule="(a) random operation sequences (append / prepend / copyInAndUpdate with buffer swap / query / clear; 5..60 ops, thorough "
          "..200; non-monotone times, varying delays) on real Measure_Delay_Buffer<Real> objects; (b) MultibodySystem simulations "
-         "with Time, Sinusoid, Scale, Constant, Plus/Minus, the four Extreme operations, Delay (short and long delays), Integrate "
-         "and approximating Differentiate attached, random parameters and start times, integrated with fixed-step RK3 / explicit "
-         "Euler and error-controlled Merson / Fehlberg returning after every internal step; the operand is logged at every step "
-         "and replayed through the model; distinct = distinct input records",
-    partial="Integrate accuracy is an implementation-side predicate (analytic integral, integrator-order bound); the accuracy of "
-            "the approximating Differentiate is a predicate (its recurrence is modelled exactly); vector-valued (Vec3) measures are "
-            "modelled (extObserveVec) but only Real measures are exercised; buffer capacities follow Array_'s allocation policy and "
-            "are only checked for size <= capacity; SampleAndHold is declared NOT IMPLEMENTED YET in Measure.h (no implementation "
-            "exists) and Variable/Result are plain state/cache accessors - not exercised",
+         "(8 guaranteed: every integrator x {return-every-step, report grid with interpolated report states}, then random) with "
+         "Time, Sinusoid, Scale, Constant, Plus and Minus, the four Extreme operations on the operand, an Extreme of a Sinusoid "
+         "(its time derivative), an Extreme of a Delay (nested auto-update measures), a Vec3 Integrate + Vec3 Extreme, Delay with "
+         "zero / shorter-than-step / long delays and both option flags toggled, Integrate and approximating Differentiate; the "
+         "operand and every measure are logged at every completed step and at every report state and replayed through the "
+         "model; distinct = distinct input records; floor: >= 8 simulations must reach the predicates",
+    partial="(i) proved about the executed model: Extreme value/time (any history, all four operations; extRun = extFold; report "
+            "states observe only), Delay buffer invariant, forgetting-is-invisible, bracket/exact-at-samples, delayRun = reference "
+            "semantics on the unpruned history, approximating Differentiate exact on affine operands from the reachable initial "
+            "state and its undamped error on quadratics, Integrate under explicit Euler = initial condition + left Riemann sum.  "
+            "(ii) predicate only: accuracy of Integrate against the analytic integral (integrator-order bounds; z is predicted "
+            "bit-exactly only for explicit Euler, for the other integrators only zdot = operand and z(t0) = ic are tied), accuracy "
+            "of the approximating Differentiate (bound 0.75*M2*h + 3*M3*h^2, judged only when that is <= 25% of the derivative's "
+            "amplitude), Delay against operand(t - delay) within the interpolation/extrapolation bound, Constant/Time exact.  "
+            "(iii) not covered: Variable/Result (plain state/cache accessors), SampleAndHold (declared NOT IMPLEMENTED YET in "
+            "Measure.h, no implementation), event-triggered sampling, measures of types other than Real and Vec3, buffer "
+            "capacities (Array_'s allocation policy; only size <= capacity is checked), Delay's cubic interpolation (TODO in the "
+            "source: the option flags have no effect on the value, which is what the model says too)",
     assumptions=["the circular array layout of Measure_Delay_Buffer is tied by correspondence; theorems are about its logical contents"],
 )
